@@ -200,3 +200,66 @@ check("C07",
       "TLA+ spec (Mol2Text) model-checked with TLC incl. exhaustive typing table; TLC-generated inputs; batched TLC trace "
       "validation of real dumps/loads executions; built-in trace-mutation self-test",
       "DESIGN.md 4/C07", modules=("Mol2Text", "MCMol2Text", "Mol2TextTrace"))
+
+check("C08",
+      "TLC exhausts XyzText (objects of 0-3 atoms over {H,C,Og,dummy} and 11 coordinate values with a 7th digit up to 2000 A, "
+      "ensembles of 1-3 frames, up to 3 dumps onto one stream, files of other programs in every DistanceUnit name, xyz and mol2, "
+      "1-3 frames) for TextDenotesTruth, LoadFaithful, UnitsPreserveDistance.  Every (state, action) pair is executed on "
+      "CartesianGeometry / Structure / Molecule / ConformerEnsemble through dumps_xyz / dump_xyz and every load / loads / "
+      "load_all / loads_all entry point (path, stream, string); the written lines (independent tokenizer), the loaded "
+      "micro-Angstrom values, the return shape and the class must equal what TLC computed.  Seeded random geometries (all 118 "
+      "elements), multi-dump streams, files in every unit and the bundled xyz files are recorded and validated by TLC against XyzTextTrace.",
+      "bounded pools (constants in the evidence); |x| <= 2147 A; Bohr compared at 1e-4 A (A) or relative 5e-6 (B); written "
+      "precision read off the text; trusted: TLC, harness tokenizer and renderer, Decimal",
+      "TLA+ spec (XyzText) model-checked with TLC; spec->code replay of every transition; batched TLC trace validation of "
+      "recorded round trips",
+      "DESIGN.md 4/C08", modules=("XyzText", "MCXyzText", "XyzTextTrace"))
+
+check("C09",
+      "TLC checks Dispatch: the load / loads / load_all / loads_all decision table written from the documentation, and the state "
+      "machine of dump targets (files with mode a/w, caller-owned streams), against Total, ListsWherePromised, "
+      "UnsupportedIsValueError, SupportedSucceeds, RouteMatchesOtype, NameHonoured, StreamsStayOpen, StreamGrowsByText, "
+      "AppendAccumulates.  Every cell fn x document (bundled and generated xyz / mol2 / cdxml / unsupported) x format argument x "
+      "source kind x 5 output types x name x key, every dump cell in every target state of histories of <=2 (quick) or <=3 "
+      "(thorough) dumps (StringIO and real-file streams), and loads of the produced files, is one real call.  The result must "
+      "equal field-wise what the class method TLC names returns on the same input, with the shape, class, count, error class "
+      "and target contents TLC computed.  Random histories are validated against DispatchTrace.",
+      "openbabel absent; cdxml-from-string and otype=None not generated; file left by a refused dump left free; cdxml without "
+      "key must equal one labelled molecule",
+      "TLA+ decision table + state machine model-checked with TLC; spec->code replay of every cell; TLC trace validation",
+      "DESIGN.md 4/C09", modules=("Dispatch", "MCDispatch", "DispatchTrace"))
+
+check("C14",
+      "TLC exhausts Ensemble.tla (constructors from atoms, molecule, list and ensemble; append/extend incl. self-extension and "
+      "atom-less ensembles; scale, invert, translate, rotate and center_at_atom in exact integer arithmetic; writes through "
+      "conformers; 1-3 independent iterators; dump, store, slice) for Rectangular, WriteThrough, EachOnceInOrder, "
+      "TransformsOnlyCoords, DumpableAndStorable and nine further action properties.  Eight named deviations must each be caught. "
+      "Every (state, action) pair of 4-6 bounded slice graphs (<=3 conformers, <=2 atoms, <=3 row mutations) is executed on real "
+      "ConformerEnsemble and Conformer objects.  After each call the three arrays, every row read through held and fresh ens[i], "
+      "the yielded conformers, the re-parsed xyz/mol2 text and the v2-codec round trip must equal the model.  Seeded random "
+      "histories of 25-40 calls on random ensembles and the bundled pentane ensemble are validated event by event by TLC against "
+      "the same actions with real micro-Angstrom / 1e-3 values.",
+      "bounded model with constants recorded in the evidence; rotations are signed permutations, scale factors integers, "
+      "coordinates multiples of 1/64 A (float32-exact); the charge row of an appended geometry, the weights of rows taken from "
+      "another ensemble, extend([]) and adopt-or-refuse for an atom-less ensemble are left free; iterators and held views are not "
+      "used across a change of the conformer count; trusted: TLC, numpy, the harness's text re-parsers, msgpack",
+      "TLA+ spec (Ensemble) model-checked with TLC; spec->code replay of every transition of bounded slices; batched TLC trace "
+      "validation of random real histories (EnsembleTrace)",
+      "DESIGN.md 4/C14", modules=("Ensemble", "MCEnsemble", "EnsembleTrace"))
+
+check("C15",
+      "TLC exhausts GraphQ.tla: the FIFO/visited-set model of yield_bfsd/yield_bfs/is_bond_in_ring/bonds_with_atom takes only "
+      "steps the property accepts on every labelled graph with <=4 (quick) / <=5 (thorough) atoms, every start, direction, bond "
+      "and neighbour order; the level-wise distance/bridge definitions equal the declarative ball definitions on all graphs with "
+      "<=5/<=6 atoms; the extension matcher equals the declarative set of induced embeddings for all targets <=4 x connected "
+      "patterns <=3.  Then the real queries run on real Connectivity/Structure/Molecule/ConformerEnsemble objects for EVERY "
+      "labelled graph with <=5/<=6 atoms (every start, direction, bond, atom), every target <=4/<=5 x small connected patterns, "
+      "and random graphs up to 40 atoms with random elements, bond types, bond order and cut-out patterns; every single yield, "
+      "ring flag, listing and mapping list is validated by TLC against GraphQTrace.",
+      "simple graphs only; directed distance = shortest path through the chosen neighbour avoiding the start; Unknown = wildcard "
+      "in patterns only; with mixed bond types only validity of returned maps and presence of the cut-out position are demanded "
+      "(the code filters by bond type, which the property does not describe); matcher bond types limited to "
+      "Unknown/Single/Double/Triple/Aromatic/Amide; trusted: TLC, Json module, adapter position bookkeeping",
+      "TLA+ spec (GraphQ) model-checked with TLC incl. 8 deviations; batched TLC trace validation of recorded real executions; "
+      "built-in corrupted-trace and code-mutant self-test",
+      "DESIGN.md 4/C15", modules=("GraphQ", "MCGraphQ", "GraphQTrace"))
